@@ -1,7 +1,11 @@
 package keeper
 
 import (
+	"cosmossdk.io/collections"
 	"cosmossdk.io/math"
+	"github.com/cosmos/cosmos-sdk/codec"
+	paramtypes "github.com/cosmos/cosmos-sdk/x/params/types"
+	collcompat "github.com/lavanet/lava/v5/utils/collcompat"
 	storetypes "github.com/cosmos/cosmos-sdk/store/types"
 	sdk "github.com/cosmos/cosmos-sdk/types"
 	"github.com/lavanet/lava/v5/utils"
@@ -171,5 +175,91 @@ func VerifC24Update() {
 	verif_assert("updated-score-valid", qs.Validate())
 	verif_assert("denominators-grow-by-the-weight", qs.Score.Denom.Equal(before.Score.Denom.Add(math.LegacyNewDec(weight))) && qs.Variance.Denom.Equal(before.Variance.Denom.Add(math.LegacyNewDec(weight))))
 	verif_assert("numerators-do-not-shrink", qs.Score.Num.GTE(before.Score.Num) && qs.Variance.Num.GTE(before.Variance.Num))
+	verif_reach("end")
+}
+
+// stub of the symbolic run (paramstore); the native replay uses a real params subspace with the default params
+func verifC24HalfLife(k Keeper, ctx sdk.Context) uint64 { return types.DefaultReputationHalfLifeFactor }
+
+// VerifC24EpochPass: the whole epoch-start pass (UpdateAllReputationQosScore) over the real reputations collection and the
+// real reputation fixation store.  Three providers of one chain and cluster hold QoS scores from the grid and arbitrary
+// stakes; the third may have had no traffic this epoch (zero epoch score).  After the pass every provider that has a
+// pairing score at this block has it in [0.5, 2], ordered like the QoS scores, and the best QoS score gets the maximum;
+// the providers with traffic all have one, their epoch scores are reset, the update time recorded and their reputation
+// score resolves (to at most the epoch's weighted mean: the zero history carries the smallest positive weight); every stored reputation is still valid.
+func VerifC24EpochPass() {
+	k, ctx := verifC24Keeper()
+	sb := collections.NewSchemaBuilder(collcompat.NewKVStoreService(k.storeKey))
+	k.reputations = collections.NewMap(sb, types.ReputationPrefix, "reputations",
+		collections.TripleKeyCodec(collections.StringKey, collections.StringKey, collections.StringKey),
+		collcompat.ProtoValue[types.Reputation](k.cdc))
+	if !verif_symbolic() {
+		tkey := storetypes.NewTransientStoreKey("transient_pairing_params")
+		ctx = verifCtx(100, 1700000000, k.storeKey, tkey)
+		k.paramstore = paramtypes.NewSubspace(k.cdc, codec.NewLegacyAmino(), k.storeKey, tkey, "pairing").WithKeyTable(types.ParamKeyTable())
+		k.SetParams(ctx, types.DefaultParams())
+	}
+	now := ctx.BlockTime().UTC().Unix()
+	grid := verifC24Grid[:verif_param("grid", 4)]
+	names := []string{"prov1", "prov2", "prov3"}
+	scores := make([]math.LegacyDec, 3)
+	stakes := make([]math.Int, 3)
+	active := []bool{true, true, verif_nondet_bool("prov3.hadTraffic")}
+	for i := range names {
+		scores[i] = math.LegacyNewDecFromBigIntWithPrec(math.NewInt(grid[verif_nondet_range("provider.qosScore.grid", 0, len(grid)-1)]).BigInt(), 18)
+		stakes[i] = math.NewInt(verif_nondet_in("provider.stake", 1, 1<<40))
+		r := types.Reputation{Score: types.ZeroQosScore, EpochScore: types.ZeroQosScore, CreationTime: now - 1000, TimeLastUpdated: now,
+			Stake: sdk.NewCoin(commontypes.TokenDenom, stakes[i])}
+		if active[i] {
+			// this epoch's reports: total weight 2, weighted score sum 2*score (so the reputation score resolves to score)
+			r.EpochScore = types.QosScore{Score: types.Frac{Num: scores[i].MulInt64(2), Denom: math.LegacyNewDec(2)}, Variance: types.Frac{Num: math.LegacyZeroDec(), Denom: math.LegacyNewDec(2)}}
+		}
+		k.SetReputation(ctx, "LAV1", "cluster", names[i], r)
+	}
+
+	k.UpdateAllReputationQosScore(ctx)
+
+	// a provider without traffic this epoch has the QoS score zero (nothing but zero-weight history); whether the pass
+	// updates it or skips it is not part of the property - it is compared like any other provider when it has a score
+	eff := make([]math.LegacyDec, 3)
+	got := make([]math.LegacyDec, 3)
+	has := make([]bool, 3)
+	for i := range names {
+		eff[i] = scores[i]
+		if !active[i] {
+			eff[i] = math.LegacyZeroDec()
+		}
+		ps, found := k.GetReputationScore(ctx, "LAV1", "cluster", names[i])
+		r, rfound := k.GetReputation(ctx, "LAV1", "cluster", names[i])
+		verif_assert("reputation-kept-and-valid", rfound && r.Validate())
+		if active[i] {
+			verif_assert("pairing-score-stored", found)
+			verif_assert("epoch-score-reset-and-time-recorded", r.EpochScore.Equal(types.ZeroQosScore) && r.TimeLastUpdated == now)
+			sc, rerr := r.Score.Score.Resolve()
+			verif_assert("reputation-score-resolves-to-at-most-the-epochs-mean", rerr == nil && !sc.IsNegative() && sc.LTE(scores[i]))
+		}
+		if found {
+			verif_assert("pairing-score-at-least-min", ps.GTE(types.MinReputationPairingScore))
+			verif_assert("pairing-score-at-most-max", ps.LTE(types.MaxReputationPairingScore))
+		}
+		got[i], has[i] = ps, found
+	}
+	for i := range names {
+		best := has[i]
+		for j := range names {
+			if has[i] && has[j] && eff[i].LT(eff[j]) {
+				verif_assert("better-qos-score-never-gets-lower-pairing-score", got[i].GTE(got[j]))
+			}
+			if has[j] && eff[j].LT(eff[i]) {
+				best = false
+			}
+		}
+		if best {
+			verif_assert("best-qos-score-gets-the-maximum", got[i].Equal(types.MaxReputationPairingScore))
+		}
+	}
+	if !active[2] {
+		verif_reach("skipped")
+	}
 	verif_reach("end")
 }
